@@ -121,6 +121,13 @@ pub fn small_shapes(thorough: bool) -> Vec<Vec<Level>> {
     v
 }
 
+#[derive(Clone, Debug, Serialize, Deserialize)]
+pub struct ExtremeCase {
+    pub hash: HashId,
+    pub w: u32,
+    pub msg_counter: u64,
+}
+
 pub fn run(ctx: &Ctx) {
     ctx.set_rule("random: (hash, 1..8 levels over W{1,2,4,8} x H{2,5,10} fitted to a cost budget, seed, counter from {0,1,last,last-1,subtree boundaries,random} written into the key blob, message from a length menu 0..8KiB) -> sign through hbs_lms::sign / SigningKey::try_sign / try_sign_with_aux, without aux data, with a zeroed aux buffer or with the buffer key generation filled -> must verify through verify(), VerifyingKey::verify(Signature) and (VerifierSignature); sweep: every counter of the complete lifetime of small shapes. Non-trivial = not the suite's point (3x W1/H5 at counter 0); distinct by serialized case.");
     ctx.assume("LmsH2 (type code 1) is enabled through the verif-hooks feature; production builds reject it");
@@ -206,6 +213,48 @@ pub fn run(ctx: &Ctx) {
             }
         }
         pass(format!("seed-from-array|{}", c.hash.name()), true)
+    });
+
+    // valid signatures over messages whose digest has an extreme checksum (targeted search against
+    // the real (I, q, C) of leaf 0 of a small key): signer and verifier at the ends of the range
+    let mut ext: Vec<ExtremeCase> = Vec::new();
+    for h in ALL_HASHES {
+        for w in [1u32, 2, 4, 8] {
+            let cands: u64 = if h.n() == 32 && w <= 2 { ctx.tier.pick(1 << 24, 1 << 26) } else { ctx.tier.pick(1 << 18, 1 << 21) };
+            let n = h.n();
+            let seed = gen::expand(0xe7, n);
+            let levels = vec![(w, 2u32)];
+            let blob = crate::refmodel::hss::private_key_blob(&levels, 0, &seed);
+            if let Out::Ok(sig0) = libapi::sign(h, b"probe", &blob, Cb::Accept, None).0 {
+                if let Out::Ok((_, pk)) = lib_keygen_cached(h, &levels, &seed) {
+                    let t = super::wire::Triple { msg: vec![], sig: sig0, pk };
+                    for ctr in super::c06::grind_with(h, w, cands, &t) {
+                        ext.push(ExtremeCase { hash: h, w, msg_counter: ctr });
+                    }
+                }
+            }
+        }
+    }
+    ctx.enumerate("extreme_checksum_messages", ext.len() as u64, false, |i| ext[i as usize].clone(), |c: &ExtremeCase| {
+        let n = c.hash.n();
+        let seed = gen::expand(0xe7, n);
+        let levels = vec![(c.w, 2u32)];
+        let msg = c.msg_counter.to_be_bytes().to_vec();
+        let (_, pk) = match lib_keygen_cached(c.hash, &levels, &seed) {
+            Out::Ok(v) => v,
+            o => return fail(format!("keygen-{}", o.kind()), format!("{:?}", o.panic_msg())),
+        };
+        let blob = crate::refmodel::hss::private_key_blob(&levels, 0, &seed);
+        let sig = match libapi::sign(c.hash, &msg, &blob, Cb::Accept, None).0 {
+            Out::Ok(s) => s,
+            o => return fail(sign_failure_key(c.hash, &levels, o.kind()), format!("sign {} for a message whose digest has an extreme checksum: {:?}", o.kind(), o.panic_msg())),
+        };
+        for (i, r) in libapi::verify_all(c.hash, &msg, &sig, &pk).iter().enumerate() {
+            if !r.is_ok() {
+                return fail(format!("verify-{} entry={}", r.kind(), i), format!("signature over a message whose digest has an extreme checksum does not verify ({} W{} message counter {}): {:?}", c.hash.name(), c.w, c.msg_counter, r.panic_msg()));
+            }
+        }
+        pass(format!("extreme|{}|w{}", c.hash.name(), c.w), true)
     });
 
     // a tall root tree with an aux buffer large enough to cache levels bigger than 64 KiB
